@@ -1,5 +1,8 @@
 use crate::sync::AtomicOption;
 use std::sync::Arc;
+#[cfg(may_verif)]
+use crate::verif::thread;
+#[cfg(not(may_verif))]
 use std::thread;
 use std::time::Duration;
 
